@@ -84,6 +84,14 @@ def planted():
                 "FSTRING_END", "NEWLINE", "INDENT", "DEDENT", "ENDMARKER", "ASYNC", "AWAIT"):
         yield f"start: [{tok}] NAME NEWLINE | NUMBER ({tok} | NUMBER)\n", ("well-formed", None, "token " + tok)
     yield "start: NAME\n_r: NAME\n", ("underscore_rule", "_r", "rule")
+    yield "start: NAME\n_: NAME\n", ("underscore_rule", "_", "rule named _")
+    yield "start: _ NAME\n_: NUMBER\n", ("underscore_rule", "_", "referenced rule named _")
+    yield "start: NAME\n__: NAME\n", ("underscore_rule", "__", "rule named __")
+    # names the generated code needs only in some alternatives (start_lineno ... for LOCATIONS) must exist in all of them
+    yield ("start: a NEWLINE\na: ('+' | '-') x=a { x } | '(' x=a ')' { x } | n=NAME { dict(LOCATIONS) }\n",
+           ("well-formed", None, "LOCATIONS after a group alternative"))
+    yield ("start: a NEWLINE\na: [NUMBER] (NAME NAME) { 'g' } | (NUMBER | '+') n=NAME { dict(LOCATIONS) } | n=NAME { dict(LOCATIONS) }\n",
+           ("well-formed", None, "LOCATIONS after an optional and a group"))
     yield "begin: NAME\n", ("no_start", None, "grammar")
     yield "@trailer 'pass'\nbegin: NAME\n", ("well-formed", None, "trailer")
 
@@ -110,7 +118,7 @@ Definition gerr_eqb (a b : gerr) : bool :=
 Definition TOKENS : list string := %s.
 """
 OK = "fun c => option_eqb gerr_eqb (check_grammar iter_fields_tbl TOKENS (fst c)) (snd c)"
-INPUTS = ["x\n", "1\n", "x y\n", "x , y\n", "1 , 2\n", "\n", "x 1 + ( y )\n"]
+INPUTS = ["x\n", "1\n", "x y\n", "x , y\n", "1 , 2\n", "\n", "x 1 + ( y )\n", "- x\n", "+ ( - y )\n", "1 x\n", "( x )\n"]
 
 
 def run(chk: common.Check, tier: str):
